@@ -19,5 +19,9 @@ Emit    == LexDone => PrintT(<<"REPLAY", ToJson([input |-> input, toks |-> toks]
 NoStuck == LexDone \/ ENABLED MCNext
 Full == {"@", "#", "~", "{", "}", "(", ")", "%", "|", "=", ">", "-", ":", ".", "/", "*", "&", "?", "+", "[", "]", "BS",
          "a", "0", "1", " ", "TAB", "LF", "CR", ",", "L2", "W2", "W3", "P3", "E4"}
+\* block-comment terminators through runs of dashes, with content after them
+Comments == {"[", "-", "]", "a"}
+\* what may follow a component: notes, braces, another marker
+Notes == {"~", "@", "(", ")", "a", "{", "}"}
 Reduced == {"@", "~", "{", "}", "(", ")", "%", "|", "=", ">", "-", ":", "[", "]", "BS", "a", "1", " ", "LF", "L2"}
 =============================================================================
